@@ -69,6 +69,11 @@ type env struct {
 	probeNF []byte
 	store   *vchain.RecStore
 	closer  *sync.Once
+	// manifests of the probe contracts (deployed, or deployed inside a monitored
+	// invocation), by hash: used to tell which method a context runs
+	mfs   map[util.Uint160]*manifest.Manifest
+	mfsMu *sync.RWMutex
+	cb    *cbState // callback probes (callbacks_test.go)
 }
 
 // restart stops the node gracefully (which persists everything) and opens a
@@ -161,7 +166,7 @@ func newEnv(t testing.TB, stage string) *env {
 	}
 	e := neotest.NewExecutor(t, bc, val, com)
 	e.DisableCoverage()
-	v := &env{t: t, stage: stage, bc: bc, e: e, val: val, com: com, names: map[util.Uint160]string{}, natives: map[string]*state.Contract{}}
+	v := &env{t: t, stage: stage, bc: bc, e: e, val: val, com: com, names: map[util.Uint160]string{}, natives: map[string]*state.Contract{}, mfs: map[util.Uint160]*manifest.Manifest{}, mfsMu: &sync.RWMutex{}}
 	v.store = st
 	v.closer = &sync.Once{}
 	cl := v.closer
@@ -181,6 +186,7 @@ func newEnv(t testing.TB, stage string) *env {
 		e.DeployContract(t, c, nil)
 		v.probes = append(v.probes, c)
 		v.names[c.Hash] = n
+		v.mfs[c.Hash] = c.Manifest
 		cs := bc.GetContractState(c.Hash)
 		if cs == nil {
 			t.Fatalf("probe %d not deployed", i)
